@@ -265,6 +265,28 @@ func runC18(r *mc.Run) {
 		{"report-data-vs-nonce", func(p *world.QuoteParts, o *rtmr.ParseTdxCcelOpts) {
 			o.Validation.TdQuoteBodyOptions.ReportData = flip(o.Validation.TdQuoteBodyOptions.ReportData, 3)
 		}},
+		{"report-data-two-bytes-high-bit", func(p *world.QuoteParts, o *rtmr.ParseTdxCcelOpts) {
+			v := append([]byte(nil), o.Validation.TdQuoteBodyOptions.ReportData...)
+			v[3] ^= 0x80
+			v[40] ^= 0x80
+			o.Validation.TdQuoteBodyOptions.ReportData = v
+		}},
+		{"report-data-01+ff", func(p *world.QuoteParts, o *rtmr.ParseTdxCcelOpts) {
+			v := append([]byte(nil), o.Validation.TdQuoteBodyOptions.ReportData...)
+			v[0] ^= 0x01
+			v[63] ^= 0xff
+			o.Validation.TdQuoteBodyOptions.ReportData = v
+		}},
+		{"rtmr1-expectation-four-bytes-0x40", func(p *world.QuoteParts, o *rtmr.ParseTdxCcelOpts) {
+			var l [][]byte
+			for i := 0; i < 4; i++ {
+				l = append(l, append([]byte(nil), cos[48+328+48*i:48+376+48*i]...))
+			}
+			for _, k := range []int{1, 7, 20, 47} {
+				l[1][k] ^= 0x40
+			}
+			o.Validation.TdQuoteBodyOptions.Rtmrs = l
+		}},
 		{"report-data-last-byte", func(p *world.QuoteParts, o *rtmr.ParseTdxCcelOpts) {
 			o.Validation.TdQuoteBodyOptions.ReportData = flip(o.Validation.TdQuoteBodyOptions.ReportData, 63)
 		}},
